@@ -116,6 +116,17 @@ def contracts():
             raises={'AttributeError': 'True', exc: 'True'},
             ensures=['False'], always_raises=True,
             serves=('C07',), native=False))
+        # ... and when the key is itself a host object ($.a[$.b]) it is
+        # refused WITHOUT being touched: no attribute of it is read, no
+        # method of it is called (it was never yaqlized)
+        cs.append(Contract(
+            Z + '_validate_name', name='yaqlized._validate_name/host-key/'
+            + exc, params=dict(name=TVal, settings=settings_of(),
+                               exception_cls=_cls(exc)),
+            requires=['not isinstance(name, "str")'],
+            raises={exc: 'len(calls) == 0'},
+            ensures=['False'], always_raises=True,
+            serves=('C07',), native=False))
     return cs
 
 
